@@ -106,7 +106,9 @@ class Run:
         t0 = time.time()
         outp = os.path.join(d, module + ".out")
         with open(outp, "w") as of:
-            p = subprocess.Popen(cmd, cwd=d, stdout=of, stderr=subprocess.STDOUT)
+            # deep recursion over long argument lists (multi-transfers of 257 tokens) needs a larger thread stack
+            env = dict(os.environ, JAVA_TOOL_OPTIONS=(os.environ.get("JAVA_TOOL_OPTIONS", "") + " -Xss256m").strip())
+            p = subprocess.Popen(cmd, cwd=d, stdout=of, stderr=subprocess.STDOUT, env=env)
             try:
                 rc = p.wait(timeout=timeout)
             except subprocess.TimeoutExpired:
